@@ -401,6 +401,7 @@ def abandoned_procs(ix: Index) -> list:
             continue
         for p in ix.procs.values():
             if p['b']['drv'] == x['inv'] and p['b']['seq'] < x['seq'] and (p['e'] is None or p['e']['seq'] >= x['seq'] or p['e']['exc'] is not None):
+                p['cancel_seq'] = x['seq']
                 out.append(p)
     ix._abandoned = out
     return out
@@ -994,7 +995,7 @@ def c10(ix: Index) -> None:
                 ix.v('C10', 'touched-event-never-completes', _c10_mech(ix, ev, fired), ev=ev, status=f['status'], results=[(x['hid'], x['status'], x['err']) for x in f['results']])
             for x in f['results']:
                 if x['status'] in ('pending', 'started'):
-                    ix.v('C10', 'child-result-left-' + x['status'], _c10_mech(ix, ev, fired), ev=ev, hid=x['hid'])
+                    ix.v('C10', 'child-result-left-' + x['status'], _c10_mech(ix, ev, fired, 'pending'), ev=ev, hid=x['hid'])
         # (d) later events on the bus are processed; bus reports idle  (probe by harness at quiescence)
         for r in ix.R:
             if r['k'] == 'idle_hang':
@@ -1008,8 +1009,58 @@ def c10(ix: Index) -> None:
                 ix.v('C10', 'awaiter-never-released', _c10_mech(ix, a['ev'], fired), ev=a['ev'])
 
 
-def _c10_mech(ix: Index, ev: int, fired: list):
-    return 'F5' if _hang_mech(ix, {ev}) == 'F5' else None
+def _c10_effective(ix: Index, fired: list) -> set:
+    """Timed-out invocations whose TIMEOUT PATH actually ran (their recorded result is the library's TimeoutError). A handler whose
+    own deadline passed but which was overtaken, while still unwinding, by the cancellation of an enclosing handler is recorded
+    as interrupted (CancelledError) and its timeout path - which cancels the pending results of its event's whole tree - never runs."""
+    out = set()
+    fin = ix.final['events']
+    for inv in fired:
+        i = ix.inv[inv]
+        res = next((q for q in fin.get(i['ev'], {}).get('results', []) if q['hid'] == f"B{i['bus']}.h{i['h']}"), None)
+        if res is not None and res['err'] == 'TimeoutError':
+            out.add(inv)
+    return out
+
+
+def _c10_abandoned(ix: Index, fired: list) -> list:
+    """[(event X whose process_event was abandoned, covered)] - covered: X lies in the lineage tree of an event whose handler's
+    timeout path ran (that path cancels the pending results of the whole tree)."""
+    out = []
+    eff = _c10_effective(ix, fired)
+    for p in abandoned_procs(ix):
+        x = p['b']['ev']
+        chain = [p['b']['drv']] + (ix.driver_chain(p['b']['drv'])[1:] if isinstance(p['b']['drv'], int) else [])
+        fired_events = [ix.inv[c]['ev'] for c in chain if isinstance(c, int) and c in eff]
+        covered = any(x == e or x in ix.desc(e) for e in fired_events)
+        out.append((x, covered, [c for c in chain if isinstance(c, int)]))
+    return out
+
+
+def _c10_mech(ix: Index, ev: int, fired: list, clause: str = 'incomplete'):
+    """Exact F5 effects on the current tree.  The abandoned event itself never gets its completion signal (and its bus never
+    reports idle).  If it is not in the tree of a handler whose timeout path ran (an unrelated queue head taken by the drain, or
+    the timeout path was pre-empted) its not-yet-started results stay pending for ever.  Ancestors whose own processing is over
+    are only ever completed by the upward walk at the end of the abandoned processing, which never happens.  What F5 does NOT
+    explain: the event of the timed-out handler itself, still being processed by its bus, with everything abandoned below it
+    cancelled by its timeout path - that event completes on the current tree."""
+    ab = _c10_abandoned(ix, fired)
+    abx = {x for x, _c, _ch in ab}
+    if ev in abx:
+        if clause == 'pending':
+            return None if all(c for x, c, _ch in ab if x == ev) else 'F5'
+        return 'F5'
+    if clause == 'pending':
+        return None
+    below = [(x, c, ch) for x, c, ch in ab if x in ix.desc(ev)]
+    if not below:
+        return None
+    # the one case F5 does not explain: everything abandoned below `ev` was abandoned by the timeout of ev's OWN handler (whose
+    # timeout path ran and cancelled that whole tree) - ev is still being processed then, and completes on the current tree
+    mine = {f for f in _c10_effective(ix, fired) if ix.inv[f]['ev'] == ev}
+    if mine and all(c and any(f in ch for f in mine) for _x, c, ch in below):
+        return None
+    return 'F5'
 
 
 ORACLES['C10'] = c10
